@@ -1,5 +1,4 @@
-(* C19: the two refutation witnesses, evaluated on the faithful model, and the
-   non-vacuity examples.  (Kept in a file of its own: the ring takes ~25 s.) *)
+(* C19: the former witnesses, evaluated on the faithful model, and the non-vacuity examples. *)
 From Verif Require Import Lib.Base Model.Resolver Model.Determinism Proofs.Resolver Proofs.ResolverExact
   Proofs.Determinism Proofs.DeterminismSorted.
 Open Scope Z_scope.
@@ -22,34 +21,16 @@ Proof. vm_compute. reflexivity. Qed.
 Lemma two_bad_g_first : resolve (front_oracle [103]) two_bad = RErr (EUse TArray n_b TScalar).
 Proof. vm_compute. reflexivity. Qed.
 
-Lemma two_bad_guard : one_error cutoff two_bad = false.
+Lemma two_bad_guard : one_error (pass_fuel two_bad) two_bad = false.
 Proof. vm_compute. reflexivity. Qed.
 
-Lemma one_bad_guard : names_ok one_bad /\ one_error cutoff one_bad = true /\
+Lemma one_bad_guard : names_ok one_bad /\ one_error (pass_fuel one_bad) one_bad = true /\
   resolve (front_oracle [103]) one_bad = RErr (EUse TArray n_a TScalar).
 Proof. split; [apply names_ok_forallb; reflexivity|]. split; vm_compute; reflexivity. Qed.
 
-Lemma good_prog_accepted : names_ok good_prog /\ one_error cutoff good_prog = true /\
+Lemma good_prog_accepted : names_ok good_prog /\ one_error (pass_fuel good_prog) good_prog = true /\
   is_ok (resolve (front_oracle [102]) good_prog) = true /\ is_ok (resolve (front_oracle [103]) good_prog) = true.
 Proof. split; [apply names_ok_forallb; reflexivity|]. repeat split; vm_compute; reflexivity. Qed.
-
-(* ---------- the verdict at the cut-off boundary ------------------------------------------ *)
-
-Definition ring := ring_prog 101 0.
-
-Lemma ring_names : names_ok ring.
-Proof. apply names_ok_forallb. vm_compute. reflexivity. Qed.
-
-Lemma ring_wf : wf ring = true.
-Proof. vm_compute. reflexivity. Qed.
-
-(* topoSort started at f001: 100 passes suffice *)
-Lemma ring_accepted : is_ok (resolve (front_oracle (fN 1)) ring) = true.
-Proof. vm_compute. reflexivity. Qed.
-
-(* topoSort started at the top level: the 101st pass still changes something *)
-Lemma ring_rejected : resolve (front_oracle []) ring = RErr ETooManyIter.
-Proof. vm_compute. reflexivity. Qed.
 
 (* ---------- the name the disassembler shows for a native call ------------------------------ *)
 
@@ -62,10 +43,6 @@ Proof. repeat split; vm_compute; reflexivity. Qed.
 
 (* ---------- the repaired resolver on the former witnesses ------------------------------------ *)
 
-(* sorted order: f before g, so f's error; the top level ("") before every function, so the
-   ring is walked from the top level *)
-Lemma two_bad_sorted : resolve sort_oracle two_bad = RErr (EUse TArray n_a TScalar).
-Proof. vm_compute. reflexivity. Qed.
-
-Lemma ring_sorted : resolve sort_oracle ring = RErr ETooManyIter.
+(* sorted order: f before g, so f's error *)
+Lemma two_bad_sorted : resolve name_order_oracle two_bad = RErr (EUse TArray n_a TScalar).
 Proof. vm_compute. reflexivity. Qed.
